@@ -99,6 +99,9 @@ func (w *world) execVX(f []string) string {
 		return ""
 	}
 	pn.report(w, "vx")
+	if mode == 1 && waitRes == "" {
+		waitRes = "panic" // the racing Wait did not return a result (its panic was reported above)
+	}
 	// the linearisation of the concurrent part
 	waitLine := func() {
 		v.waits++
@@ -140,6 +143,9 @@ func (w *world) execVX(f []string) string {
 
 func genVX(rng *hx.Rng) []string {
 	var ops []string
+	if kt := hx.Pick(rng, vnKeyTypes); kt != "int" {
+		ops = append(ops, "vn keytype "+kt)
+	}
 	for r := 0; r < 80; r++ {
 		k, mode := 2+rng.Intn(3), rng.Intn(2)
 		if mode == 1 && rng.Chance(1, 5) {
